@@ -312,7 +312,12 @@ def emit_assumed(u, un2, file, nm):
         if re.match(r"\s*decreases\b", l):
             continue
         u.emit(l, info)
-    u.emit("{ unimplemented!() }", info)
+    m_it = re.match(r"\s*impl\s+Iterator\s*<\s*Item\s*=\s*(.+)>\s*$", it["ret_ty"] or "")
+    if m_it:
+        # an opaque return type needs some concrete iterator type behind it (the body is never verified nor run)
+        u.emit("{ let e: ::core::option::Option<Empty<%s>> = ::core::option::Option::None; e.unwrap() }" % m_it.group(1), info)
+    else:
+        u.emit("{ unimplemented!() }", info)
     if it["impl_header"] is not None:
         u.emit("}", info)
     u.stubs.append({"name": nm, "file": file, "line_start": it["line_start"], "line_end": it["line_end"],
